@@ -352,3 +352,24 @@ def no_deferred_callbacks(ck, F, rid, allowed=()):
                   key="deferred-callback|%s" % strip_tmpl(f.name).split("::")[-1])
     if not sites:
         ck.ob(rid, "(handler code)", True, "no signal connection, timer, pool task or thread is created by code reachable from the handler entry points (%d functions)" % len(reach), key="deferred-callback|none")
+
+
+def message_text_intact(ck, F, rid, consequence):
+    """LogMessage(type, context, message) stores the text it is given: m_message is initialised from the `message` parameter itself, and
+    message() returns m_message.  Anything 'tidied' on the way in (a trailing line break chopped, trimming, normalisation) changes the
+    text every handler decides on and prints."""
+    LMc = "QtLogger::LogMessage"
+    cts = [c for c in F.fn_all(LMc + "::LogMessage") if c.d.get("kind") == "ctor" and not c.d.get("copyctor") and not c.d.get("movector") and len(c.params) >= 3]
+    ck.require(cts, "LogMessage(type, context, message) not found")
+    for ct in cts:
+        ck.touch(ct)
+        mp = [p for p in ct.params if "QString" in (p.get("type") or "")]
+        ini = [i for i in ct.inits if i.get("member") == LMc + "::m_message" and isinstance(i.get("e"), dict)]
+        ok = len(mp) == 1 and len(ini) == 1 and is_ref_to(skip_copies(ini[0]["e"]), mp[0]["decl"])
+        body_writes = [n for n in ct.all_nodes() if n.get("k") == "member" and n.get("name") == LMc + "::m_message" and write_kind(ct, n)]
+        ck.ob(rid, sitestr(ct), ok and not body_writes, "LogMessage stores the message text it is given, unchanged" if (ok and not body_writes) else
+              "LogMessage initialises its text with %s instead of the message it was given: %s" % (describe(ini[0]["e"])[:60] if ini else "nothing", consequence), key="LogMessage|text-intact")
+    acc = F.fn(LMc + "::message")
+    rs = returns(acc)
+    oka = len(rs) == 1 and is_this_field(rs[0].get("e"), LMc + "::m_message")
+    ck.ob(rid, sitestr(acc), oka, "message() returns m_message" if oka else "message() returns %s" % (describe(rs[0].get("e"))[:40] if rs else "?"), key="LogMessage::message|return")
